@@ -35,7 +35,7 @@ func (s *verifStream) Send(r *spyv1.SubscribeSignedVAAResponse) error {
 }
 
 type verifFilter struct {
-	chain uint16
+	chain int32 // as the wire carries it: a 32-bit enum value, which need not be a 16-bit chain id
 	addr  vaa.Address
 }
 
@@ -52,11 +52,19 @@ func VerifC20_Delivery() {
 	streams := make([]*verifStream, nsub)
 	filters := make([][]verifFilter, nsub)
 	cancels := make([]context.CancelFunc, nsub)
+	refused := make([]bool, nsub)
+	outOfRange := false
 	for i := 0; i < nsub; i++ {
 		nf := zzverif.Len("nfilters", 0, 1, 2)
 		req := &spyv1.SubscribeSignedVAARequest{}
 		for f := 0; f < nf; f++ {
-			fl := verifFilter{chain: zzverif.U16("f.chain")}
+			fl := verifFilter{chain: int32(zzverif.U16("f.chain"))}
+			if i == 0 && f == 0 && zzverif.Len("f.chainOutOfRange", 0, 1) == 1 {
+				// the first filter may name a chain number that is not a 16-bit chain id: it matches no VAA at all
+				fl.chain = zzverif.I32("f.chain32")
+				zzverif.Assume(fl.chain < 0 || fl.chain > 65535)
+				outOfRange = true
+			}
 			fl.addr[31] = zzverif.U8("f.addr")
 			filters[i] = append(filters[i], fl)
 			req.Filters = append(req.Filters, &spyv1.FilterEntry{Filter: &spyv1.FilterEntry_EmitterFilter{EmitterFilter: &spyv1.EmitterFilter{
@@ -66,24 +74,38 @@ func VerifC20_Delivery() {
 		cancels[i] = cancel
 		streams[i] = &verifStream{ctx: ctx, stalled: i == stalledSub, hang: make(chan struct{})}
 		st := streams[i]
-		go func() { _ = s.SubscribeSignedVAA(req, st) }()
+		i := i
+		go func() {
+			if err := s.SubscribeSignedVAA(req, st); err != nil && st.ctx.Err() == nil {
+				refused[i] = true
+			}
+		}()
 		zzverif.Settle()
 	}
-	zzverif.Assert(len(s.subs) == nsub, "all-subscriptions-registered")
+	// a subscription may be refused only for a filter that can never match (an out-of-range chain number)
+	nreg := nsub
+	for i := range refused {
+		if refused[i] {
+			zzverif.Assert(i == 0 && outOfRange, "only-a-malformed-subscription-is-refused")
+			zzverif.Assert(len(streams[i].got) == 0, "refused-subscription-receives-nothing")
+			nreg--
+		}
+	}
+	zzverif.Assert(len(s.subs) == nreg, "all-subscriptions-registered")
 
 	vaas := make([][]byte, nvaa)
 	emit := make([]verifFilter, nvaa)
 	for j := 0; j < nvaa; j++ {
 		v := &vaa.VAA{Version: 1, Timestamp: time.Unix(1, 0), EmitterChain: vaa.ChainID(zzverif.U16("v.chain")), Payload: []byte{byte(j + 1)}, Sequence: uint64(j)}
 		v.EmitterAddress[31] = zzverif.U8("v.addr")
-		emit[j] = verifFilter{uint16(v.EmitterChain), v.EmitterAddress}
+		emit[j] = verifFilter{int32(v.EmitterChain), v.EmitterAddress}
 		vaas[j], _ = v.Marshal()
 		var perr error
 		zzverif.MustNotBlock(func() { perr = s.Publish(vaas[j]); zzverif.Settle() })
 		zzverif.Assert(perr == nil, "publish-ok")
 	}
 	for i := 0; i < nsub; i++ {
-		if i == stalledSub {
+		if i == stalledSub || refused[i] {
 			continue
 		}
 		for j := 0; j < nvaa; j++ {
@@ -115,19 +137,19 @@ func VerifC20_Delivery() {
 		go func() { _ = s.SubscribeSignedVAA(&spyv1.SubscribeSignedVAARequest{}, ns) }()
 		zzverif.Settle()
 	})
-	zzverif.Assert(len(s.subs) == nsub+1, "new-subscription-registers")
+	zzverif.Assert(len(s.subs) == nreg+1, "new-subscription-registers")
 	zzverif.MustNotBlock(func() { ncancel(); zzverif.Settle() })
-	zzverif.Assert(len(s.subs) == nsub, "disconnected-subscription-removed")
+	zzverif.Assert(len(s.subs) == nreg, "disconnected-subscription-removed")
 	// churn: the first subscriber leaves, a new one joins, and the remaining subscribers keep receiving
-	if stalledSub == 9 {
+	if stalledSub == 9 && !refused[0] {
 		c0 := cancels[0]
 		zzverif.MustNotBlock(func() { c0(); zzverif.Settle() })
-		zzverif.Assert(len(s.subs) == nsub-1, "first-subscription-removed")
+		zzverif.Assert(len(s.subs) == nreg-1, "first-subscription-removed")
 		cctx, ccancel := context.WithCancel(context.Background())
 		cs := &verifStream{ctx: cctx, hang: make(chan struct{})}
 		go func() { _ = s.SubscribeSignedVAA(&spyv1.SubscribeSignedVAARequest{}, cs) }()
 		zzverif.Settle()
-		zzverif.Assert(len(s.subs) == nsub, "late-subscription-registered")
+		zzverif.Assert(len(s.subs) == nreg, "late-subscription-registered")
 		x := &vaa.VAA{Version: 1, Timestamp: time.Unix(2, 0), EmitterChain: vaa.ChainID(zzverif.U16("x.chain")), Payload: []byte{0xEE}, Sequence: 99}
 		x.EmitterAddress[31] = zzverif.U8("x.addr")
 		xb, _ := x.Marshal()
@@ -144,7 +166,7 @@ func VerifC20_Delivery() {
 		for i := 1; i < nsub; i++ {
 			match := len(filters[i]) == 0
 			for _, f := range filters[i] {
-				if f.chain == uint16(x.EmitterChain) && f.addr == x.EmitterAddress {
+				if f.chain == int32(x.EmitterChain) && f.addr == x.EmitterAddress {
 					match = true
 				}
 			}
@@ -161,7 +183,7 @@ func VerifC20_Delivery() {
 		}
 	}
 	want := 0
-	if stalledSub != 9 {
+	if stalledSub != 9 && !refused[stalledSub] && nvaa > 0 {
 		want = 1 // the stalled one is stuck inside Send and cannot notice its context
 	}
 	zzverif.Assert(len(s.subs) == want, "all-disconnected-subscriptions-removed")
